@@ -46,8 +46,10 @@ func HFlistEncode() {
 		node.Target = nd_string(1)
 		node.Perm = 0o777
 		perm = 0o777
-	case vfsx.KChr, vfsx.KBlk, vfsx.KFifo, vfsx.KSock:
+	case vfsx.KChr, vfsx.KBlk:
 		node.Rdev = uint64(rdev)
+	case vfsx.KFifo, vfsx.KSock:
+		rdev = 0 // the kernel reports no device number for fifos and sockets
 	}
 	fsys.Add(node)
 	devices := nd_bool()
@@ -66,7 +68,7 @@ func HFlistEncode() {
 		return
 	}
 	vassert(len(list.Files) == 2, "sender's own list has two entries")
-	o := refOpts{Uid: fl.Uid, Gid: fl.Gid, Devices: fl.Devices, Links: fl.Links, Checksum: fl.Checksum}
+	o := refOpts{Uid: fl.Uid, Gid: fl.Gid, Devices: fl.Devices, Specials: fl.Specials, Links: fl.Links, Checksum: fl.Checksum}
 	ents, ioerr, consumed, ok := refDecodeList(conn.out, o, 4)
 	vassert(ok, "the emitted file list is not a valid protocol-27 list for the session's options")
 	if !ok {
@@ -92,7 +94,7 @@ func HFlistEncode() {
 	if o.Gid {
 		vassert(uint32(e.Gid) == gid, "gid")
 	}
-	if o.Devices && refIsDevice(e.Mode) {
+	if o.hasRdev(e.Mode) {
 		vassert(uint32(e.Rdev) == rdev, "rdev")
 		vreach("rdev")
 	}
